@@ -578,6 +578,20 @@ def root_cause(s, m, sig):
 
 # ------------------------------------------------------------------ the check
 def run(ctx):
+    # --- coordinator: every accepted precision value must be able to display every kind of result, including the
+    #     decimal approximation of a fraction beyond the float range (display_result's Decimal fallback)
+    import subprocess as _sp, tempfile as _tf, shutil as _sh
+    for _prec in ("0", "1", "6", "40"):
+        _home = _tf.mkdtemp(prefix="c19prec-", dir=ctx["rundir"])
+        os.makedirs(os.path.join(_home, ".config", "ka"))
+        open(os.path.join(_home, ".config", "ka", "config"), "w").write("junk\nprecision = %s\n" % _prec)
+        for _expr in ("10^400/3", "(10^400/3) m", "1/3+0.5", "{10^400/7}"):
+            _p = _sp.run(["/venv/bin/python", "-m", "ka.cli", _expr], env=dict(os.environ, HOME=_home, PYTHONPATH=C.SRC), stdout=_sp.PIPE, stderr=_sp.PIPE, text=True, timeout=120)
+            if _p.returncode != 0 or "Traceback" in _p.stderr or not _p.stdout.strip():
+                ctx["report"].violation(dict(kind="option-breaks-display", option="precision"),
+                                        "C19 fails: with config 'precision = %s', `ka %r` exits %r: %s" % (_prec, _expr, _p.returncode, _p.stderr.strip()[-160:]),
+                                        dict(config="precision = %s" % _prec, text=_expr, exit=_p.returncode, stderr=_p.stderr[-400:]))
+        _sh.rmtree(_home, ignore_errors=True)
     rep, tier, seed = ctx["report"], ctx["tier"], ctx["seed"]
     rng = random.Random(seed * 104729 + 19)
     quick = tier == "quick"
